@@ -243,11 +243,32 @@ Proof.
   destruct (compatible (uu b) (uu ge)); cbn [negb]; eauto.
 Qed.
 
+Lemma fill_ex : forall Un c f a b x, faithful Un -> sound Un c -> In a Un -> In b Un ->
+  exists c', m_fill c f a b x = (p_fill f a b x, c') /\ sound Un c'.
+Proof.
+  intros Un c f a b x HF HS Ha Hb. unfold m_fill, p_fill.
+  destruct (compatible (uu f) (uu a)); [|eauto].
+  destruct (link_ex Un c (Some a) a b (convert (uu f) (uu a) x) HF HS) as (c1 & E & S1); auto.
+  - intros k' Hk. inversion Hk; subst; auto.
+  - rewrite E. eauto.
+Qed.
+
+Lemma chain_ex : forall Un c s m d x, faithful Un -> sound Un c -> In s Un -> In m Un -> In d Un ->
+  exists c', m_chain c s m d x = (p_chain s m d x, c') /\ sound Un c'.
+Proof.
+  intros Un c s m d x HF HS Hs Hm Hd. unfold m_chain, p_chain.
+  destruct (link_ex Un c None s m x HF HS) as (c1 & E1 & S1); auto; [intros k' Hk; discriminate|].
+  rewrite E1. clear E1.
+  destruct (p_link None s m x) as [|?|? ? ?|us cs xs u cv y|e]; try (eexists; split; [reflexivity|assumption]).
+  destruct (link_ex Un c1 None m d (2 * y) HF S1) as (c2 & E2 & S2); auto; [intros k' Hk; discriminate|].
+  rewrite E2. exists c2. split; [|assumption]. destruct (p_link None m d (2 * y)); reflexivity.
+Qed.
+
 Lemma step_ex : forall Un c o, faithful Un -> sound Un c -> incl (op_ents o) Un ->
   exists c', step c o = (pure_res o, c') /\ sound Un c'.
 Proof.
   intros Un c o HF HS HI.
-  destruct o as [|a b|a b|a b|a b|a b chk x|a b x|k a b x|k a d b x]; cbn [step pure_res].
+  destruct o as [|a b|a b|a b|a b|a b chk x|a b x|k a b x|k a d b x|f a b x|s m d x]; cbn [step pure_res].
   - exists []. split; [reflexivity|apply sound_nil].
   - assert (Ha : In a Un) by (apply HI; simpl; auto). assert (Hb : In b Un) by (apply HI; simpl; auto).
     use_query HF HS Ha Hb c1 E S1. eauto.
@@ -269,6 +290,8 @@ Proof.
     + apply HI. destruct k; simpl; auto.
     + apply HI. destruct k; simpl; auto.
     + apply HI. destruct k; simpl; auto 6.
+  - apply fill_ex; auto; apply HI; simpl; auto.
+  - apply chain_ex; auto; apply HI; simpl; auto.
 Qed.
 
 (** Main refinement: from any sound memo (in particular the empty one), for every session of
@@ -590,4 +613,51 @@ Proof.
   do 5 eexists. split; [reflexivity|]. split.
   - rewrite E3. apply convert_proper. exact Exd.
   - exists se. repeat split; auto.
+Qed.
+
+(** * full_like with a fill value in foreign units, and a component computing in its input's own units *)
+
+Theorem fill_exact : forall Un f a b x,
+  faithful Un -> (forall u, In u Un -> wf (uu u)) -> offsets_ok Un ->
+  In a Un -> In b Un ->
+  (compatible (uu f) (uu a) = false -> p_fill f a b x = RErr ErrDim)
+  /\ (compatible (uu f) (uu a) = true -> compatible (uu a) (uu b) = true ->
+      exists us xs y, p_fill f a b x = RLink us true xs (cid b) true y
+                      /\ y == convert (uu f) (uu b) x).
+Proof.
+  intros Un f a b x HF HW HO Ha Hb. split; intros Hfa.
+  - unfold p_fill. now rewrite Hfa.
+  - intros Hab. unfold p_fill. rewrite Hfa.
+    destruct (link_exact Un a a b (convert (uu f) (uu a) x) HF HW HO Ha Ha Hb (compatible_refl _) Hab)
+      as ((us & cs & xs & cv & y & E & EY) & _).
+    rewrite E. simpl. do 3 eexists. split; [reflexivity|].
+    rewrite EY. apply convert_compose; auto.
+Qed.
+
+Theorem chain_exact : forall Un s m d x,
+  faithful Un -> (forall u, In u Un -> wf (uu u)) -> offsets_ok Un ->
+  In s Un -> In m Un -> In d Un ->
+  (compatible (uu s) (uu m) = false \/ compatible (uu m) (uu d) = false ->
+     p_chain s m d x = RErr ErrMeta)
+  /\ (compatible (uu s) (uu m) = true -> compatible (uu m) (uu d) = true ->
+      exists cs xs cv z, p_chain s m d x = RLink (cid m) cs xs (cid d) cv z
+        /\ xs == 2 * convert (uu s) (uu m) x
+        /\ z == convert (uu m) (uu d) (2 * convert (uu s) (uu m) x)).
+Proof.
+  intros Un s m d x HF HW HO Hs Hm Hd. split.
+  - intros H. unfold p_chain.
+    destruct (compatible (uu s) (uu m)) eqn:Esm.
+    + destruct H as [H|H]; [discriminate|].
+      destruct (link_exact Un s s m x HF HW HO Hs Hs Hm (compatible_refl _) Esm)
+        as (_ & (cv & y & E & _)). rewrite E.
+      unfold p_link. rewrite H. reflexivity.
+    + unfold p_link. rewrite Esm. reflexivity.
+  - intros Hsm Hmd. unfold p_chain.
+    destruct (link_exact Un s s m x HF HW HO Hs Hs Hm (compatible_refl _) Hsm)
+      as (_ & (cv & y & E & EY)). rewrite E.
+    destruct (link_exact Un m m d (2 * y) HF HW HO Hm Hm Hd (compatible_refl _) Hmd)
+      as (_ & (cv2 & z & E2 & EZ)). rewrite E2.
+    do 4 eexists. split; [reflexivity|]. split.
+    + now rewrite EY.
+    + rewrite EZ. apply convert_proper. now rewrite EY.
 Qed.
